@@ -88,6 +88,21 @@ def _session(img, pw, names, want, budget=0.6):
         res["extract"] = ("spin", "")
     except Exception as e:
         res["extract"] = ("raise", type(e).__name__)
+    # 1b. selective extraction of the last member (skipped members before it are only CRC-checked)
+    try:
+        with WK.inner_budget(budget):
+            fac = pz.CollectFactory()
+            with py7zr.SevenZipFile(io.BytesIO(img), password=pw) as z:
+                z.extract(targets=names[-1:], factory=fac)
+        got = fac.as_dict()
+        bad = [n for n, b in got.items() if want.get(n) != b]
+        res["selective"] = ("differs", "extract(targets=[%r]) delivered %r with bytes different from the pristine ones" % (names[-1], bad[:2])) if bad else ("ok", "")
+    except WK.CpuBudget:
+        if threading.active_count() > 1:
+            raise
+        res["selective"] = ("spin", "")
+    except Exception as e:
+        res["selective"] = ("raise", type(e).__name__)
     # 2. testzip / test
     for call in ("testzip", "test"):
         try:
@@ -133,6 +148,11 @@ def run_case(case):
         elif ex[0] == "differs":
             viol.append({"key": "success-with-different-content/%s/%s" % (a["label"].split("/")[0] + "/" + a["label"].split("/")[1], reg),
                          "what": "%s damaged by %r (%s): extraction returned normally but %s" % (a["label"], op, reg, ex[1])})
+        sel = r.get("selective")
+        if sel is not None:
+            obs["selective_extractions"] = obs.get("selective_extractions", 0) + 1
+            if sel[0] == "differs":
+                viol.append({"key": "selective-success-with-different-content/%s" % reg, "what": "%s damaged by %r (%s): %s" % (a["label"], op, reg, sel[1])})
         for call in ("testzip", "test"):
             st, v = r[call]
             obs[call + "_calls"] += 1
